@@ -1,7 +1,7 @@
 """C08 -- the distance-to-subdifferential score is sound (family K)."""
 import numpy as np
 
-from checks.common import Unit, P, mk_sep_penalty, SEP_CONVEX, SEP_NONCONVEX
+from checks.common import Unit, P, mk_sep_penalty, SEP_CONVEX, SEP_NONCONVEX, dderiv
 from vf.sym import _isinf
 
 EXPLANATION = ("One-sided derivatives of the penalty's real value() code are obtained by running it on dual numbers "
@@ -203,10 +203,13 @@ def u_subdiff_rows(h, name, T, ws, zero_row, gamma=None):
     score = pen.subdiff_distance(W, grad, ws_a)
     for idx in range(len(ws)):
         h.observe('score%d' % idx, score[idx])
-    if h.mode != 'sym':
-        for idx, j in enumerate(ws):
-            h.ensure('score[%d]' % idx, h.is_finite(score[idx]))
-        return
+    flatW = [W[r, t] for r in range(nrow) for t in range(T)]
+
+    def val(Z):
+        return pen.value(Z)
+
+    def unit_dir(r, t, sgn=1.0):
+        return [sgn if (rr == r and tt == t) else 0.0 for rr in range(nrow) for tt in range(T)]
     for idx, j in enumerate(ws):
         is_zero = all(bool(W[j, t] == 0) for t in range(T))
         if is_zero:
@@ -214,13 +217,10 @@ def u_subdiff_rows(h, name, T, ws, zero_row, gamma=None):
                 h.ensure('score[%d]' % idx, h.eq(score[idx], 0))
                 continue
             # radius = one-sided derivative along e_0 of the real value()
-            rows = [[W[r, t] for t in range(T)] for r in range(nrow)]
-            rows[j] = [Dual(0.0, 1.0 if t == 0 else 0.0) for t in range(T)]
-            rad = tangent(pen.value(h.arr(rows)))
+            rad = dderiv(h, val, flatW, unit_dir(j, 0), shape=(nrow, T), onesided=True)
             ng2 = 0.0
             for t in range(T):
                 ng2 = ng2 + grad[idx, t] * grad[idx, t]
-            # score == max(0, ||g|| - rad)   <=>   score >= 0 and (score + rad)^2 == ||g||^2 when ||g|| > rad, else 0
             inside = h.le(ng2, rad * rad)
             h.ensure('score[%d]' % idx, h.and_(
                 h.implies(inside, h.eq(score[idx], 0)),
@@ -229,14 +229,15 @@ def u_subdiff_rows(h, name, T, ws, zero_row, gamma=None):
         else:
             res2 = 0.0
             for t in range(T):
-                rows = [[W[r, tt] for tt in range(T)] for r in range(nrow)]
-                rows[j][t] = Dual(W[j, t], 1.0)
-                dplus = tangent(pen.value(h.arr(rows)))
-                rows[j][t] = Dual(W[j, t], -1.0)
-                dminus = tangent(pen.value(h.arr(rows)))
-                h.ensure('smooth[%d,%d]' % (idx, t), h.eq(dplus, -dminus))
+                dplus = dderiv(h, val, flatW, unit_dir(j, t), shape=(nrow, T), onesided=True)
+                dminus = dderiv(h, val, flatW, unit_dir(j, t, -1.0), shape=(nrow, T), onesided=True)
+                if h.mode == 'sym':
+                    h.ensure('smooth[%d,%d]' % (idx, t), h.eq(dplus, -dminus))
                 res2 = res2 + (grad[idx, t] + dplus) * (grad[idx, t] + dplus)
-            h.ensure('score[%d]' % idx, h.and_(h.ge(score[idx], 0), h.eq(score[idx] * score[idx], res2)))
+            if h.mode == 'sym':
+                h.ensure('score[%d]' % idx, h.and_(h.ge(score[idx], 0), h.eq(score[idx] * score[idx], res2)))
+            else:
+                h.ensure('score[%d]' % idx, abs(float(score[idx]) ** 2 - float(res2)) <= 1e-4 * (abs(float(res2)) + 1))
 
 
 def u_subdiff_group(h, layout, ws, positive, zero_group):
@@ -264,10 +265,6 @@ def u_subdiff_group(h, layout, ws, positive, zero_group):
     for idx in range(len(ws)):
         if not _isinf(score[idx]):
             h.observe('score%d' % idx, score[idx])
-    if h.mode != 'sym':
-        for idx in range(len(ws)):
-            h.ensure('score[%d]' % idx, not np.isnan(score[idx]))
-        return
     ptr = 0
     for idx, g in enumerate(ws):
         ind = layout[g]
@@ -285,19 +282,20 @@ def u_subdiff_group(h, layout, ws, positive, zero_group):
             h.ensure('score[%d]-finite-when-feasible' % idx, h.false())
             continue
         # (a) score == 0  =>  first-order stationarity in every feasible direction (via the real value())
-        d = h.vec('d%d_' % idx, len(ind))
-        full = [w[i] for i in range(pfeat)]
-        feas = h.true()
-        for k, i in enumerate(ind):
-            full[i] = Dual(w[i], d[k])
-            if positive:
-                feas = h.and_(feas, h.implies(h.eq(w[i], 0), h.ge(d[k], 0)))
-        val = pen.value(h.arr(full))
-        lin = 0.0
-        for k in range(len(ind)):
-            lin = lin + gg[k] * d[k]
-        h.ensure('zero-score=>stationary[%d]' % idx,
-                 h.implies(h.and_(h.eq(score[idx], 0), feas), h.ge(lin + tangent(val), 0)))
+        if h.mode == 'sym':
+            d = h.vec('d%d_' % idx, len(ind))
+            full = [w[i] for i in range(pfeat)]
+            feas = h.true()
+            for k, i in enumerate(ind):
+                full[i] = Dual(w[i], d[k])
+                if positive:
+                    feas = h.and_(feas, h.implies(h.eq(w[i], 0), h.ge(d[k], 0)))
+            val = pen.value(h.arr(full))
+            lin = 0.0
+            for k in range(len(ind)):
+                lin = lin + gg[k] * d[k]
+            h.ensure('zero-score=>stationary[%d]' % idx,
+                     h.implies(h.and_(h.eq(score[idx], 0), feas), h.ge(lin + tangent(val), 0)))
         # (b) reference distance (doc/tutorials/prox_nn_group_lasso.rst), squared to stay polynomial
         is_zero = all(bool(w[i] == 0) for i in ind)
         thr = al * wg[g]
